@@ -584,6 +584,10 @@ func Compress(codec int8, p []byte, snappyXerial bool) ([]byte, error) {
 		}
 		zw.Write(p)
 		zw.Close()
+	case 5, 6, 7:
+		// a codec of the future: consumers that do not know the id cannot open it, whatever the bytes are
+		buf.WriteString("codec-of-the-future:")
+		buf.Write(p)
 	default:
 		return nil, fmt.Errorf("unknown codec %d", codec)
 	}
@@ -593,6 +597,8 @@ func Compress(codec int8, p []byte, snappyXerial bool) ([]byte, error) {
 // Decompress inverts Compress; for snappy it reports whether xerial framing was found.
 func Decompress(codec int8, p []byte) ([]byte, bool, error) {
 	switch codec {
+	case 5, 6, 7:
+		return bytes.TrimPrefix(p, []byte("codec-of-the-future:")), false, nil
 	case CodecGzip:
 		zr, err := gzip.NewReader(bytes.NewReader(p))
 		if err != nil {
